@@ -917,6 +917,37 @@ fn run_inner(sc: &J) -> Result<Option<String>, String> {
             for cut in 0..10 { if rd.read_value(&mut &out[..cut]).is_ok() { return Ok(Some(format!("message cut to {cut} bytes is accepted"))); } }
             match rd.read_value(&mut &out[..]) { Ok(back) if back == v => Ok(None), other => Ok(Some(format!("message does not read back: {other:?}"))) }
         }
+        // C18: the header is a function of the schema alone — whatever other schemas this process has built headers for before
+        // (same full name, different definition): every message starts with C3 01 + CRC-64-AVRO of ITS OWN canonical form, and a
+        // reader for one definition refuses the messages of the other
+        "single_object_header_history" => {
+            let texts: Vec<&str> = sc["schemas"].as_array().ok_or("schemas")?.iter().filter_map(|t| t.as_str()).collect();
+            let mut msgs: Vec<(Schema, Vec<u8>)> = Vec::new();
+            for t in &texts {
+                let schema = Schema::parse_str(t).map_err(|e| e.to_string())?;
+                let canon = schema.canonical_form();
+                let want: Vec<u8> = [0xC3u8, 0x01].iter().copied().chain(rf::crc64avro(canon.as_bytes()).to_le_bytes()).collect();
+                let hdr = apache_avro::headers::RabinFingerprintHeader::from_schema(&schema);
+                let built = apache_avro::headers::HeaderBuilder::build_header(&hdr);
+                if built != want { return Ok(Some(format!("header built for {t} after {} earlier schema(s) is {:02x?}, the specification's header is {:02x?}", msgs.len(), built, want))); }
+                let mut w = apache_avro::GenericSingleObjectWriter::new_with_capacity(&schema, 16).map_err(|e| e.to_string())?;
+                let mut out = Vec::new();
+                let v = crate::dsl(&sc["value"])?;
+                if w.write_value_ref(&v, &mut out).is_ok() {
+                    if out.len() < 10 || out[..10] != want[..] { return Ok(Some(format!("message for {t} starts with {:02x?}, the specification's header is {:02x?}", &out[..out.len().min(10)], want))); }
+                    msgs.push((schema, out));
+                }
+            }
+            for (i, (schema, _)) in msgs.iter().enumerate() {
+                let rd = apache_avro::GenericSingleObjectReader::builder().schema(schema.clone()).build().map_err(|e| e.to_string())?;
+                for (j, (other, m)) in msgs.iter().enumerate() {
+                    let ok = rd.read_value(&mut &m[..]).is_ok();
+                    if i == j && !ok { return Ok(Some(format!("reader for schema #{i} refuses its own message"))); }
+                    if i != j && other.canonical_form() != schema.canonical_form() && ok { return Ok(Some(format!("reader for schema #{i} accepts a message written with the different schema #{j}"))); }
+                }
+            }
+            Ok(None)
+        }
         // C11: parsing never panics; every operation on an accepted schema completes without panicking (a panic is caught by
         // the wrapper and reported); canonical form re-parses to the same canonical form
         "schema_ops" => {
